@@ -17,7 +17,7 @@ ASSUMPTIONS = ['C02 mirror (the decoder reads what the encoder writes) and C13 R
 def run(cx, out):
     out.rule('R18.1', 'DecodeLength::len reads the same Compact<u32> count the type\'s wire shape starts with; tuples delegate to their first component')
     out.rule('R18.2', 'skip overridden only by arrays; override = N element skips or a full decode; default = decode + discard')
-    for cfg in lib_cfgs(cx, quick=('A',), thorough=('A', 'B', 'D')):
+    for cfg in lib_cfgs(cx, quick=('D',), thorough=('A', 'B', 'D')):
         facts = cx.facts(cfg)
         unit(out, facts)
         S = shape.Shapes(facts)
